@@ -134,6 +134,6 @@ def handle (j : Json) : Except String Json := do
       else
         -- obj.flush(): references are part of the state; scan and save order are computed by the model; queries inside its after_*
         -- hooks flush the cache recursively
-        pure (jResult (entityFlushRefsN H ord bfuel depth s (← argNat j "obj")))
+        pure (jResult (objFlushN H ord bfuel depth s (← argNat j "obj")))
   | _ => throw s!"unknown op {op}"
 end PonyVerif.Drive.C33
